@@ -1,7 +1,7 @@
 (* C09 -- Stored documents are returned exactly as they were added.
    Only statements, each closed by `exact <lemma>`, non-vacuity examples and assumptions. *)
 From TV Require Import Base.Prelude Generated.Constants Store.VInt Store.SkipIndex Store.SkipIndexProofs
-  Store.BlockStore Store.BlockStoreProofs Store.DocCodec Store.DocCodecProofs.
+  Store.BlockStore Store.BlockStoreProofs Store.DocCodec Store.DocCodecProofs Store.WriterFaults.
 Local Open Scope N_scope.
 
 (* ---------------------------------------------------------------- skip index (any number of checkpoints / layers) *)
@@ -177,4 +177,30 @@ Definition ex_doc : doc :=
 Example ex_doc_roundtrip :
   dres_sdoc_eqb (de_doc (ser_doc (stored_of [0;2;1]) ex_doc)) (stored_part (stored_of [0;2;1]) ex_doc)
   && Nat.eqb (length (stored_part (stored_of [0;2;1]) ex_doc)) 5 = true.
+Proof. vm_compute. reflexivity. Qed.
+
+(* ---------------------------------------------------------------- I/O errors are reported, never swallowed *)
+(* dedicated compression thread: ANY fault pattern of the underlying writer, any message list, any tail
+   (skip index, footer, flush, terminate) and any outcome of the race between the failing thread and the
+   sending main thread: a failed operation makes the writer report Err *)
+Theorem C09_writer_error_dedicated : forall fails notice msgs close_ops i,
+  (i < total_ops msgs close_ops)%nat -> fails i = true -> dedicated_result fails notice msgs close_ops = WErr.
+Proof. exact dedicated_reports_errors. Qed.
+
+Theorem C09_writer_error_same_thread : forall fails msgs close_ops i,
+  (i < total_ops msgs close_ops)%nat -> fails i = true -> same_thread_result fails 0 msgs close_ops = WErr.
+Proof. exact same_thread_reports_errors. Qed.
+
+(* Ok means complete: every operation of the stream was executed and succeeded *)
+Theorem C09_writer_ok_complete : forall fails notice msgs close_ops,
+  dedicated_result fails notice msgs close_ops = WOk ->
+  forall i, (i < total_ops msgs close_ops)%nat -> fails i = false.
+Proof. exact dedicated_ok_complete. Qed.
+
+Theorem C09_writer_no_spurious_error : forall fails notice msgs close_ops,
+  (forall i, fails i = false) -> dedicated_result fails notice msgs close_ops = WOk.
+Proof. exact dedicated_no_fault_ok. Qed.
+
+Example ex_tail_fault_reported :
+  wres_eqb (writer_outcome true true 9 10) WErr && wres_eqb (writer_outcome true false 10 10) WOk = true.
 Proof. vm_compute. reflexivity. Qed.
